@@ -110,8 +110,9 @@ def r2(c):
         # an async block of handle() calls it: the receiver is one of the block's captured variables
         ib = inner[0]
         rs = one(ib.calls(RS_), 'run_session')
-        ok = len(rs.args) > 5
-        a = q.sem(ib, rs.args[5]) if ok else None
+        bundled = len(rs.args) <= 5       # the session's belongings travel as one value (a parameter object) in args[0]
+        ok = bool(rs.args)
+        a = q.sem(ib, rs.args[0 if bundled else 5]) if ok else None
         ok = ok and a.kind == 'place' and a.local == 1      # an upvar of the async block
         # which upvar: match with the aggregate that builds the async block in handle
         ag = [s for i, s in b.assigns() if s['rv']['r'] == 'agg' and norm(s['rv'].get('coroutine', '')) == ib.path]
@@ -121,7 +122,11 @@ def r2(c):
             ok = bool(idx) and idx[0] < len(ag[0]['rv']['a'])
             if ok:
                 up = q.sem(b, ag[0]['rv']['a'][idx[0]])
-                ok = up.kind == 'call' and up.cs is ch and 'field:1' in ''.join(up.proj)
+                if bundled:
+                    ok = up.kind == 'agg' and isinstance(up.extra, dict) and 'commands' in up.extra.get('fields', [])
+                    if ok:
+                        up = q.sem(b, up.extra['a'][up.extra['fields'].index('commands')])
+                ok = ok and up.kind == 'call' and up.cs is ch and 'field:1' in ''.join(up.proj)
         nc = [cs for cs in ib.calls('tokio::sync::mpsc::bounded::Sender::send') if q.agg_variant_of(ib, cs.args[1]) or True]
         sclose = [s for i, s in ib.assigns() if s['rv']['r'] == 'agg' and s['rv'].get('adt', '').endswith('SessionClose')]
         c.ob('close-notified', len(nc) == 1 and len(sclose) == 1 and ib.dominates(rs.ret, nc[0].node), 'when run_session returns, SessionClose(id) is sent back to the server task', '', loc_of(ib))
@@ -251,6 +256,12 @@ def r5(c):
     c.ob('fresh-framing', len(rs.calls('rodbus::common::frame::FrameWriter::tcp')) == 1 and len(rs.calls('rodbus::common::frame::FramedReader::tcp')) == 1, 'each session builds its own FrameWriter and FramedReader', '', loc_of(rs))
     o = P.outer('rodbus::tcp::server::run_session')
     own = [t for t in (o.sig_in or []) if 'TcpStream' in t]
+    if not own and o.sig_in and not o.sig_in[0].startswith('&'):
+        # ... or it owns, by value, a parameter object that owns the socket
+        t0 = norm(__import__('re').sub(r'<.*$', '', o.sig_in[0]))
+        a0 = P.adts.get(t0)
+        if a0 is not None and len(a0['variants']) == 1:
+            own = [f['ty'] for f in a0['variants'][0]['fields'] if 'TcpStream' in f['ty']]
     c.ob('socket-owned', len(own) == 1 and not own[0].startswith('&'), 'run_session owns its socket by value (closed when the session ends)', str(o.sig_in[:2]), loc_of(o))
     hb = P.fn(ST + '::handle')
     cl = [cs for cs in hb.calls('core::clone::Clone::clone')]
